@@ -271,6 +271,30 @@ func TestC19Store(t *testing.T) {
 
 				do(fmt.Sprintf("Add(%s %s)", spec, gen.ShowVals(vals)), func() { col.Add(res) })
 			},
+			"AddOwnMember": func(t *rapid.T) {
+				// What At hands out is a resource like any other: adding it
+				// appends a snapshot of it.
+				if len(model.items) == 0 {
+					t.Skip("empty collection")
+				}
+
+				i := rapid.IntRange(0, len(model.items)-1).Draw(t, "member")
+				src := model.items[i]
+				cp := &colItem{id: src.id, vals: map[string]any{}, skip: append([]string{}, src.skip...)}
+
+				for k, v := range src.vals {
+					cp.vals[k] = gen.Clone(v)
+				}
+
+				model.items = append(model.items, cp)
+
+				if p := oracle.Try(func() { col.Add(col.At(i)) }); p != nil {
+					fail("Add(At(%d)) %s", i, p)
+				}
+
+				adds++
+				history = append(history, fmt.Sprintf("Add(At(%d))", i))
+			},
 			"AddMany": func(t *rapid.T) {
 				// Many plain members at once (fresh IDs, zero values), so that
 				// the collection reaches sizes a single history cannot.
